@@ -100,7 +100,7 @@ func checkC09(r *Result) []Violation {
 }
 
 func init() {
-	register(&propDef{ID: "C09", Gen: genC09, Check: checkC09, Foreign: foreignCrash,
+	register(&propDef{ID: "C09", Gen: genC09, Check: withCrashRule("C09", checkC09),
 		Interesting: func(r *Result) bool {
 			// non-trivial: some message was retained while at least one later read happened on its connection
 			for _, rt := range r.Retained {
